@@ -23,6 +23,7 @@ import (
 	"github.com/jech/storrent/protocol"
 
 	"verifharness/internal/cq"
+	"verifharness/internal/wm"
 )
 
 type wcase struct {
@@ -124,82 +125,6 @@ func errClass(err error) string {
 	}
 }
 
-func renderMsg(m protocol.Message) (string, string) {
-	n3 := func(name string, a, b, c uint32) string { return fmt.Sprintf("(%s %d %d %d)", name, a, b, c) }
-	switch m := m.(type) {
-	case protocol.KeepAlive:
-		return "KeepAlive", "KeepAlive"
-	case protocol.Choke:
-		return "Choke", "Choke"
-	case protocol.Unchoke:
-		return "Unchoke", "Unchoke"
-	case protocol.Interested:
-		return "Interested", "Interested"
-	case protocol.NotInterested:
-		return "NotInterested", "NotInterested"
-	case protocol.Have:
-		return fmt.Sprintf("(Have %d)", m.Index), "Have"
-	case protocol.Bitfield:
-		return "(Bitfield " + cq.Bytes(m.Bitfield) + ")", "Bitfield"
-	case protocol.Request:
-		return n3("Request", m.Index, m.Begin, m.Length), "Request"
-	case protocol.Cancel:
-		return n3("Cancel", m.Index, m.Begin, m.Length), "Cancel"
-	case protocol.RejectRequest:
-		return n3("RejectRequest", m.Index, m.Begin, m.Length), "RejectRequest"
-	case protocol.Piece:
-		return fmt.Sprintf("(Piece %d %d %s)", m.Index, m.Begin, cq.Bytes(m.Data)), "Piece"
-	case protocol.Port:
-		return fmt.Sprintf("(Port %d)", m.Port), "Port"
-	case protocol.SuggestPiece:
-		return fmt.Sprintf("(SuggestPiece %d)", m.Index), "SuggestPiece"
-	case protocol.AllowedFast:
-		return fmt.Sprintf("(AllowedFast %d)", m.Index), "AllowedFast"
-	case protocol.HaveAll:
-		return "HaveAll", "HaveAll"
-	case protocol.HaveNone:
-		return "HaveNone", "HaveNone"
-	case protocol.Extended0:
-		var keys []string
-		for k := range m.Messages {
-			keys = append(keys, k)
-		}
-		sort.Strings(keys)
-		var kv []string
-		for _, k := range keys {
-			kv = append(kv, fmt.Sprintf("(%s, %d)", cq.Bytes([]byte(k)), m.Messages[k]))
-		}
-		return fmt.Sprintf("(Extended0 {| e_version := %s; e_port := %d; e_reqq := %d; e_ipv4 := %s; e_ipv6 := %s; e_metadata_size := %d; e_messages := %s; e_upload_only := %s; e_encrypt := %s |})",
-			cq.Bytes([]byte(m.Version)), m.Port, m.ReqQ,
-			cq.OptBytes(m.IPv4.AsSlice(), m.IPv4.IsValid()),
-			cq.OptBytes(m.IPv6.AsSlice(), m.IPv6.IsValid()),
-			m.MetadataSize, cq.List(kv), cq.Bool(m.UploadOnly), cq.Bool(m.Encrypt)), "Extended0"
-	case protocol.ExtendedPex:
-		rp := func(ps []pexPeer) string {
-			var l []string
-			for _, p := range ps {
-				l = append(l, fmt.Sprintf("{| p_ip := %s; p_port := %d; p_flags := %d |}", cq.Bytes(p.ip), p.port, p.flags))
-			}
-			return cq.List(l)
-		}
-		return fmt.Sprintf("(ExtendedPex %d %s %s)", m.Subtype, rp(pexPeers(m.Added)), rp(pexPeers(m.Dropped))), "ExtendedPex"
-	case protocol.ExtendedMetadata:
-		return fmt.Sprintf("(ExtendedMetadata %d %d %d %d %s)", m.Subtype, m.Type, m.Piece, m.TotalSize, cq.Bytes(m.Data)), "ExtendedMetadata"
-	case protocol.ExtendedDontHave:
-		return fmt.Sprintf("(ExtendedDontHave %d %d)", m.Subtype, m.Index), "ExtendedDontHave"
-	case protocol.ExtendedUploadOnly:
-		return fmt.Sprintf("(ExtendedUploadOnly %d %s)", m.Subtype, cq.Bool(m.Value)), "ExtendedUploadOnly"
-	case protocol.ExtendedUnknown:
-		return fmt.Sprintf("(ExtendedUnknown %d)", m.Subtype), "ExtendedUnknown"
-	case protocol.Unknown:
-		// the type byte is unexported: print via %v ({n})
-		var t int
-		fmt.Sscanf(fmt.Sprintf("%v", m), "{%d}", &t)
-		return fmt.Sprintf("(Unknown %d)", t), "Unknown"
-	}
-	return fmt.Sprintf("(Unknown 999999 (* %T *))", m), "Other"
-}
-
 // runRead runs protocol.Read on input with the given cut mode and returns the
 // observation as a Gallina term plus a coarse class for statistics.
 func runRead(input []byte, cut string, cutseed int64) (obs string, class string) {
@@ -231,7 +156,7 @@ func runRead(input []byte, cut string, cutseed int64) (obs string, class string)
 	if m == nil {
 		return fmt.Sprintf("(ONil %d)", consumed), "nilnil"
 	}
-	s, cl := renderMsg(m)
+	s, cl := wm.Render(m)
 	return fmt.Sprintf("(OMsg %s %d %d)", s, consumed, alloc), cl
 }
 
